@@ -377,6 +377,14 @@ def programs(thorough, seed):
         progs.append([group_spec([eq_spec(FULL, d1, (d2,), p=3, c=1), x])])
         progs.append([group_spec([y, x])])
         progs.append([group_spec(subgroups=[group_spec([y, x])]), ])
+    # (1d) several instances of one equation class on one destination: every
+    #      instance gets every hook (py_initialize and reduce included)
+    for mask in (FULL, 0b1000001, 0b1100011):
+        progs.append([group_spec([
+            eq_spec(mask, 'a', ('a', 'b'), p=3, c=1),
+            eq_spec(mask, 'a', ('b',), p=5, c=2),
+            eq_spec(mask, 'b', ('a',), p=7, c=3),
+            eq_spec(mask, 'a', ('a', 'c'), p=11, c=4)])])
     # (1b) the same with classes that inherit all their hooks
     for mask in range(0, 128, 1 if thorough else 5):
         progs.append([group_spec([eq_spec(mask, 'a', ('a', 'b'), p=3,
